@@ -13,7 +13,7 @@ Open Scope Z_scope.
 Definition exn_name (e : exn) : string :=
   match e with
   | EKey => "KeyError" | EValue => "ValueError" | EType => "TypeError" | EAssertion => "AssertionError"
-  | EAttribute => "AttributeError" | ENotImplemented => "NotImplementedError"
+  | EAttribute => "AttributeError" | ENotImplemented => "NotImplementedError" | EStopIteration => "StopIteration"
   | EFuel => "OutOfFuel" | EUnmodelled => "Unmodelled"
   end%string.
 
@@ -215,6 +215,7 @@ Definition k_merge := lit "merge".
 Definition k_verify := lit "verify".
 Definition k_create := lit "create".
 Definition k_create_s := lit "create_s".
+Definition k_create_rdd := lit "create_rdd".
 Definition k_row := lit "row".
 
 Definition run_more (kind : str) (args : list val) : val :=
@@ -252,6 +253,19 @@ Definition run_more (kind : str) (args : list val) : val :=
         | Some rs =>
             match infer_schema_from_list rs with
             | Ok s => val_of_res (fun out => VTup [val_of_dtype s; val_of_rows out]) (create_inferred local_offset rs)
+            | Err e => VErr (exn_name e)
+            end
+        | None => VBad
+        end
+    | _ => VBad
+    end
+  else if str_eqb kind k_create_rdd then
+    match args with
+    | VList rows :: _ =>
+        match pyvals_of_vals rows with
+        | Some rs =>
+            match infer_schema_rdd rs with
+            | Ok s => val_of_res (fun out => VTup [val_of_dtype s; val_of_rows out]) (create_inferred_rdd local_offset rs)
             | Err e => VErr (exn_name e)
             end
         | None => VBad
